@@ -64,9 +64,19 @@ def _exec_small(args):
     # 3. boundary classes through every other carrier and route
     bidx = _boundary_idx(row)
     bvals = [vals[i] for i in bidx]
+    # 2b. doubles ONE ULP away from a tie / from an exact code (not single-limb: judged over BigInt, so they are not tagged 'nat')
+    import math
+    near = []
+    for k in sorted({row['lo'] - 1, row['lo'], -1, 0, 1, row['hi'], row['hi'] + 1}):
+        for t_ in (k + 0.5, float(k)):
+            for d_ in (math.inf, -math.inf):
+                near.append(F(math.nextafter(t_, d_)) / (F(2) ** row['f']))
+    fine = [x_store.observe(fx, np, fmt, modes, near, ['pyfloat', 'np.float64'][rot % 2], sroutes[rot % len(sroutes)], props, False),
+            x_store.observe(fx, np, fmt, modes, near, ['ndarray-f64', 'list'][rot % 2], ['ctor', 'call', 'set_val'][rot % 3], props, True)]
+    fine = [o for o in fine if o is not None]
     if tier == 'quick' and rot % 3 != 0:
         # quick tier: the secondary carriers visit every third configuration (all of them in the thorough tier)
-        return _tag([o for o in out if o is not None])
+        return _tag([o for o in out if o is not None]) + fine
     if tier == 'thorough':
         scal = [(c, r) for c in x_store.SCALAR_CARRIERS if c not in ('pyfloat', 'pybool') for r in sroutes]
         pool = vals
@@ -106,7 +116,7 @@ def _exec_small(args):
         for j in (-3, -2, -1, 1, 2, 3, 1 << 20, -(1 << 20)):
             out.append(x_store.observe(fx, np, fmt, modes, [v + j * mod for v in inr], 'ndarray-f64', 'ctor', props, True,
                                        {'shift': j}))
-    return _tag([o for o in out if o is not None])
+    return _tag([o for o in out if o is not None]) + fine
 
 
 # ------------------------------------------------------------------ direction B (wide world)
@@ -136,6 +146,15 @@ def _wide_values(rng, s, w, f, n, int_only=False):
         if int_only and v.denominator != 1:
             continue
         out.append(v)
+    if not int_only:
+        # doubles ONE ULP away from a tie or from an exact code (scaled), and odd scaled values that need all 53 bits of the mantissa
+        import math
+        for k in (0, 1, -1, 2, -2, hi, lo, rng.randint(lo, hi)):
+            for t in (k + 0.5, k - 0.5, float(k)):
+                for d in (math.inf, -math.inf):
+                    out.append(F(math.nextafter(t, d)) / (F(2) ** f))
+        for _ in range(2):
+            out.append(F(rng.choice([-1, 1]) * ((1 << 52) + 2 * rng.randint(0, (1 << 51) - 1) + 1)) / (F(2) ** f))
     rng.shuffle(out)
     return out
 
